@@ -43,6 +43,7 @@ theorem tie_model_literals :
     Generated.acc_pathMutators.map (·.1) =
       [tDirectory, tEmptyFile, tHardlink, tSymlink, tPermissions].map String.ofList := by decide
 
+-- BEGIN generated-literal ties (tools: /tmp regen script; the right-hand sides are what the model was written from)
 theorem tie_acc_stmts_appendGroup : Generated.acc_stmts_appendGroup = (["ge := passwd.GroupEntry{ GroupName: group.GroupName, GID: group.GID, Members: group.Members, Password: \"x\", }",
   "return append(groups, ge)"] : List String) := by rfl
 
@@ -54,18 +55,24 @@ theorem tie_acc_stmts_userToUserEntry : Generated.acc_stmts_userToUserEntry = ([
 
 theorem tie_acc_stmts_mutateAccounts : Generated.acc_stmts_mutateAccounts = (["var eg errgroup.Group",
   "if len(ic.Accounts.Groups) != 0 { eg.Go(func() error { path := filepath.Join(\"etc\", \"group\") gf, err := passwd.ReadOrCreateGroupFile(fsys, path) if err != nil { return err } for _, g := range ic.Accounts.Groups { gf.Entries = appendGroup(gf.Entries, g) } if err := gf.WriteFile(fsys, path); err != nil { return err } return nil }) }",
-  "eg.Go(func() error { path := filepath.Join(\"etc\", \"passwd\") uf, err := passwd.ReadOrCreateUserFile(fsys, path) if err != nil { return err } for _, u := range ic.Accounts.Users { ue := userToUserEntry(u) uf.Entries = append(uf.Entries, ue) } for _, ue := range uf.Entries { if ue.HomeDir == \"/dev/null\" { continue } targetHomedir := ue.HomeDir if fi, err := fsys.Stat(targetHomedir); err == nil { if !fi.IsDir() { return fmt.Errorf(\"%s home directory %s exists, but is not a directory\", ue.UserName, ue.HomeDir) } continue } else if !os.IsNotExist(err) { return fmt.Errorf(\"checking homedir exists: %w\", err) } parent := filepath.Dir(targetHomedir) if err := fsys.MkdirAll(parent, 0o755); err != nil { return fmt.Errorf(\"creating parent %s: %w\", parent, err) } if err := fsys.Mkdir(targetHomedir, 0o700); err != nil { return fmt.Errorf(\"creating homedir: %w\", err) } if err := fsys.Chown(targetHomedir, int(ue.UID), int(ue.GID)); err != nil { return fmt.Errorf(\"chowning homedir: %w\", err) } } if err := uf.WriteFile(path); err != nil { return err } if ic.Accounts.RunAs != \"\" { for _, ue := range uf.Entries { if ue.UserName == ic.Accounts.RunAs { ic.Accounts.RunAs = fmt.Sprintf(\"%d\", ue.UID) break } } } return nil })",
+  "eg.Go(func() error { path := filepath.Join(\"etc\", \"passwd\") uf, err := passwd.ReadOrCreateUserFile(fsys, path) if err != nil { return err } for _, u := range ic.Accounts.Users { ue := userToUserEntry(u) uf.Entries = append(uf.Entries, ue) } for _, ue := range uf.Entries { if ue.HomeDir == \"/dev/null\" { continue } targetHomedir := filepath.Clean(ue.HomeDir) if fi, err := fsys.Stat(targetHomedir); err == nil { if !fi.IsDir() { return fmt.Errorf(\"%s home directory %s exists, but is not a directory\", ue.UserName, ue.HomeDir) } continue } else if !os.IsNotExist(err) { return fmt.Errorf(\"checking homedir exists: %w\", err) } parent := filepath.Dir(targetHomedir) if err := fsys.MkdirAll(parent, 0o755); err != nil { return fmt.Errorf(\"creating parent %s: %w\", parent, err) } if err := fsys.Mkdir(targetHomedir, 0o700); err != nil { return fmt.Errorf(\"creating homedir: %w\", err) } if err := fsys.Chown(targetHomedir, int(ue.UID), int(ue.GID)); err != nil { return fmt.Errorf(\"chowning homedir: %w\", err) } } if err := uf.WriteFile(path); err != nil { return err } if ic.Accounts.RunAs != \"\" { for _, ue := range uf.Entries { if ue.UserName == ic.Accounts.RunAs { ic.Accounts.RunAs = fmt.Sprintf(\"%d\", ue.UID) break } } } return nil })",
   "if err := eg.Wait(); err != nil { return err }",
   "return nil"] : List String) := by rfl
+
+theorem tie_acc_stmts_permissionsToFileMode : Generated.acc_stmts_permissionsToFileMode = (["mode := fs.FileMode(perms & 0o777)",
+  "if perms&0o4000 != 0 { mode |= fs.ModeSetuid }",
+  "if perms&0o2000 != 0 { mode |= fs.ModeSetgid }",
+  "if perms&0o1000 != 0 { mode |= fs.ModeSticky }",
+  "return mode"] : List String) := by rfl
 
 theorem tie_acc_stmts_mutatePermissions : Generated.acc_stmts_mutatePermissions = (["return mutatePermissionsDirect(fsys, mut.Path, mut.Permissions, mut.UID, mut.GID)"] : List String) := by rfl
 
 theorem tie_acc_stmts_mutatePermissionsDirect : Generated.acc_stmts_mutatePermissionsDirect = (["target := path",
-  "if err := fsys.Chmod(target, fs.FileMode(perms)); err != nil { return fmt.Errorf(\"chmod %q: %w\", target, err) }",
+  "if err := fsys.Chmod(target, permissionsToFileMode(perms)); err != nil { return fmt.Errorf(\"chmod %q: %w\", target, err) }",
   "if err := fsys.Chown(target, int(uid), int(gid)); err != nil { return fmt.Errorf(\"chown %q: %w\", target, err) }",
   "return nil"] : List String) := by rfl
 
-theorem tie_acc_stmts_mutateDirectory : Generated.acc_stmts_mutateDirectory = (["perms := fs.FileMode(mut.Permissions)",
+theorem tie_acc_stmts_mutateDirectory : Generated.acc_stmts_mutateDirectory = (["perms := permissionsToFileMode(mut.Permissions)",
   "if err := fsys.MkdirAll(mut.Path, perms); err != nil { return err }",
   "if mut.Recursive { return fs.WalkDir(fsys, mut.Path, func(path string, d fs.DirEntry, err error) error { if err != nil { return err } if err := mutatePermissionsDirect(fsys, path, mut.Permissions, mut.UID, mut.GID); err != nil { return fmt.Errorf(\"mutating permissions for path %q: %w\", path, err) } return nil }) }",
   "return nil"] : List String) := by rfl
@@ -149,5 +156,6 @@ theorem tie_acc_buildImageCalls : Generated.acc_buildImageCalls = (["mutateAccou
   "mutatePaths(bc.fs, &bc.o, &bc.ic)",
   "installBusyboxLinks(bc.fs, installed)",
   "installCharDevices(bc.fs)"] : List String) := by rfl
+-- END generated-literal ties
 
 end Apko.C13
